@@ -93,7 +93,7 @@ def c05(A):
     # duplicate / late / unknown / out-of-order acknowledgements change nothing
     for (sev, evs) in A.steps:
         s = sev["s"]
-        if s[0] not in ("dupack", "stray", "early") or s[2] not in ("PUBACK", "PUBREC", "PUBCOMP"):
+        if s[0] not in ("dupack", "stray", "early", "cross") or s[2] not in ("PUBACK", "PUBREC", "PUBCOMP"):
             continue
         ins = [e for e in evs if e["k"] == "in"]
         if not ins:
@@ -316,8 +316,8 @@ def _stage(r, i):
 def c11(A):
     o = Out("C11")
     for c in A.conns.values():
-        if c.i_lost is None or c.clean is not True:
-            continue
+        if c.i_lost is None or c.clean is not True or c.n_connects > 1:
+            continue      # (a second connect() after a refusal may have changed the session mode: not judged)
         o.dec("clean_losses")
         lo, hi = c.i_lost, (c.i_lost_done if c.i_lost_done is not None else BIG)
         for r in A.reqs.values():
@@ -375,6 +375,8 @@ def c12(A):
     acks = delivered_acks(A)
     for c in A.conns.values():
         # (1) losing a persistent connection fails no publish Deferred
+        if c.n_connects > 1:
+            continue
         if c.i_lost is not None and c.clean is False:
             o.dec("persistent_losses")
             lo, hi = c.i_lost, (c.i_lost_done if c.i_lost_done is not None else BIG)
@@ -397,7 +399,7 @@ def c12(A):
         # (4) requests made on the new connection before its CONNACK
         for r in own_pre:
             o.dec("preconnack_requests")
-            fs = [f for f in r.fires if f["step"] == c.step_connack_ok and not f["ok"]]
+            fs = [f for f in r.fires if f["step"] == c.step_connack_ok and not f["ok"] and f["i"] < (c.i_lost or BIG)]
             if fs:
                 o.bad("preconnack-failed/%s" % ("clean" if c.clean else "persistent"),
                       "publish made before CONNACK failed (%s) by the session handling at CONNACK" % fs[0]["etype"], fs[0])
@@ -474,6 +476,32 @@ def c12(A):
             again = [e for e in pubs if e.get("token") == r.info["token"]]
             if again:
                 o.bad("resume-publish-of-released", "PUBLISH of an already released message re-sent at CONNACK", again[0])
+        # held-back messages are released as far as the window of the new protocol allows
+        win = None
+        for e in tx_in_step:
+            win = e["window"]
+        if win is None:
+            for i2, cl in A.calls.items():
+                if cl["conn"] == c.idx and i2 < iack:
+                    win = cl["window"]
+        sn_i = A.snaps[c.step_connack_ok]["i"] if c.step_connack_ok in A.snaps else BIG
+        inflight = 0
+        held = []
+        for r in pub_reqs(A):
+            if r.a != c.a or r.called_at_return or r.info["qos"] not in (1, 2) or r.i_ret > iack:
+                continue
+            if r.fired_before(sn_i) or not chain_persistent(A, r, c):
+                continue
+            sent = [e for e in r.tx if e["i"] < sn_i]
+            if not sent:
+                held.append(r)
+            elif r not in released:
+                inflight += 1
+        if held and win is not None:
+            o.dec("heldback_at_resume")
+            if inflight < win:
+                o.bad("heldback-not-released", "%d held-back message(s) stay queued at CONNACK although only %d of %d window slots are taken"
+                      % (len(held), inflight, win), c.step_connack_ok)
         # nothing else may be repeated: every other PUBLISH in this step is a first transmission
         known = set(r.info["token"] for _, r in carried) | set(r.info["token"] for r in released)
         for e in pubs:
